@@ -95,7 +95,7 @@ def make_filter(flt):
 
 
 def _blank():
-    return {"r": "ok", "R": [], "m": [], "sg": [], "B2": [], "e": ""}
+    return {"r": "ok", "R": [], "m": [], "sg": [], "B2": [], "e": "", "A1": [], "B1": []}
 
 
 def _call(thunk):
@@ -151,35 +151,93 @@ def drive_dot(stmts, both):
     return out
 
 
+class _Objects:
+    """Names for statement OBJECTS (small integers in order of first appearance); keeps every
+    object alive so that the names stay unambiguous for the whole history."""
+
+    def __init__(self):
+        self.names, self.keep = {}, []
+
+    def of(self, stmts):
+        out = []
+        for s in stmts:
+            if id(s) not in self.names:
+                self.names[id(s)] = len(self.keep) + 1
+                self.keep.append(s)
+            out.append(self.names[id(s)])
+        return out
+
+
+def _snapshot(stmts, out):
+    """The operand list as it reads NOW (id, depends_on, kind, lhs, rhs, condition of every
+    statement).  Observation only: C20_Judge compares it with what the call was given."""
+    try:
+        import warnings
+        with warnings.catch_warnings():
+            warnings.simplefilter("ignore")
+            return ser_stream(stmts)
+    except RecursionError:
+        raise
+    except Exception as exc:  # noqa: BLE001 - an operand that no longer serialises
+        if out["r"] == "ok":
+            out.update(r="unser", e=("operand after the call: " + str(exc))[:120])
+        return []
+
+
 def drive_hist(case):
     from pymbolic.imperative.transform import (disambiguate_and_fuse, disambiguate_identifiers,
                                               fuse_statement_streams_with_unique_ids)
-    cur = build_stream(case["init"])
+    # alias = 1: a base stream is built ONCE per history and the same statement objects are
+    # handed in every time it is used again (so results of earlier fusions that still hold
+    # them meet them again); alias = 0: a fresh copy for every use
+    alias = bool(case.get("alias", 0))
+    built = {}
+
+    def operand(js):
+        if not alias:
+            return build_stream(js)
+        key = json.dumps(js, sort_keys=True)
+        if key not in built:
+            built[key] = build_stream(js)
+        return built[key]
+
+    objs = _Objects()
+    cur = operand(case["init"])
     events = []
     ncalls = 0
     for op in case["ops"]:
-        x = build_stream(op["X"])
+        x = operand(op["X"])
         sa = x if op["side"] == "R" else cur
         sb = x if op["side"] == "L" else cur
         flt = make_filter(op["flt"])
         kind = op["op"]
         res = {}
+        ids = {"a": objs.of(sa), "b": objs.of(sb), "r": []}
 
         def thunk(kind=kind, sa=sa, sb=sb, flt=flt, res=res):
             if kind == "fuse":
                 r, m = fuse_statement_streams_with_unique_ids(sa, sb)
-                res["R"] = r
+                res["R"] = res["O"] = r
                 return {"R": ser_stream(r), "m": ser_idmap(m)}
             if kind == "dis":
                 b2, sg = disambiguate_identifiers(sa, sb, flt)
+                res["O"] = b2
                 return {"B2": ser_stream(b2), "sg": ser_subst(sg)}
             r, sg, m = disambiguate_and_fuse(sa, sb, flt)
-            res["R"] = r
+            res["R"] = res["O"] = r
             return {"R": ser_stream(r), "sg": ser_subst(sg), "m": ser_idmap(m)}
 
         out = _call(thunk)
         ncalls += 1
-        events.append({"op": kind, "side": op["side"], "X": op["X"], "flt": op["flt"], "out": out})
+        # frame observation: read the two operand lists again after the call
+        out["A1"] = _snapshot(sa, out)
+        out["B1"] = _snapshot(sb, out)
+        try:
+            ids["r"] = objs.of(res.get("O") or [])
+        except TypeError:
+            pass
+        events.append({"op": kind, "side": op["side"], "X": op["X"], "flt": op["flt"], "out": out,
+                       "ids": ids})
         if kind in ("fuse", "daf") and out["r"] == "ok":
             cur = list(res["R"])
     try:
@@ -188,7 +246,7 @@ def drive_hist(case):
     except Exception as exc:  # noqa: BLE001
         dot = {"r": "err", "edges": [], "edges2": [], "nodes": [], "e": type(exc).__name__}
     return {"id": case["id"], "k": "hist", "init": case["init"], "ev": events, "dot": dot,
-            "pred": case.get("pred", "-"), "n": ncalls}
+            "pred": case.get("pred", "-"), "n": ncalls, "alias": int(alias)}
 
 
 def drive_rw(case):
@@ -246,12 +304,24 @@ def signature(rec, v):
 
 # ------------------------------------------------------------------ model runs
 NEG_CONTROLS = [
-    # (cfg, invariant that must be reported violated)
-    ("C20_Model_bug_NameReuse", "Inv_IdsDistinct"),
-    ("C20_Model_bug_MapNotInjective", "Inv_IdsDistinct"),
-    ("C20_Model_bug_DepsNotRemapped", "Step_DepIso"),
-    ("C20_Model_bug_RenameRhsOnly", "Step_NoSharedIdent"),
-    ("C20_Model_bug_FilterIgnored", "Step_DafClauses"),
+    # (module, cfg, invariant that must be reported violated)
+    ("C20_Model", "C20_Model_bug_NameReuse", "Inv_IdsDistinct"),
+    ("C20_Model", "C20_Model_bug_MapNotInjective", "Inv_IdsDistinct"),
+    ("C20_Model", "C20_Model_bug_DepsNotRemapped", "Step_DepIso"),
+    ("C20_Model", "C20_Model_bug_RenameRhsOnly", "Step_NoSharedIdent"),
+    ("C20_Model", "C20_Model_bug_FilterIgnored", "Step_DafClauses"),
+]
+# the heap model (statement objects, aliased operands): in-place updates must be found by the
+# frame observation without aliasing, by the output clauses only WITH aliasing, and by the
+# caller's handles; "blind" = output clauses only and no aliasing: must pass (that is the blind
+# spot the frame observation and the aliased histories close)
+HEAP_CONTROLS = [
+    ("C20_Heap", "C20_Heap_bug_CondInPlace_frame", "HInv_FrameClause"),
+    ("C20_Heap", "C20_Heap_bug_CondInPlace_value", "HInv_Value"),
+    ("C20_Heap", "C20_Heap_bug_CondInPlace_handles", "HInv_HandlesKeep"),
+    ("C20_Heap", "C20_Heap_bug_FuseIdsInPlace_frame", "HInv_FrameClause"),
+    ("C20_Heap", "C20_Heap_bug_FuseIdsInPlace_value", "HInv_Value"),
+    ("C20_Heap", "C20_Heap_blind_CondInPlace", ""),      # "" = must be clean
 ]
 
 
@@ -261,14 +331,17 @@ def run_models(tier):
     res = {}
 
     def one(job):
-        cfg, expect = job
-        return cfg, expect, kit.run_tlc("C20_Model", cfg, workers=4 if expect is None else 2,
+        module, cfg, expect = job
+        return cfg, expect, kit.run_tlc(module, cfg, workers=4 if expect is None else 2,
                                         heap="4g", timeout=7200, env=JVM_ENV)
 
     def chain(jobs):
         return [one(j) for j in jobs]
 
-    chains = [[(f"C20_Model_{tier}_fuse", None)], [(f"C20_Model_{tier}_daf", None)], NEG_CONTROLS]
+    chains = [[("C20_Model", f"C20_Model_{tier}_fuse", None)],
+              [("C20_Model", f"C20_Model_{tier}_daf", None)],
+              NEG_CONTROLS,
+              [("C20_Heap", f"C20_Heap_{tier}", None)] + HEAP_CONTROLS]
     with cf.ThreadPoolExecutor(max_workers=len(chains)) as ex:
         for part in ex.map(chain, chains):
             for cfg, expect, r in part:
@@ -284,6 +357,9 @@ def check_models(models, out):
             out.add_tlc(r)
             out.extra.setdefault("model_runs", {})[cfg] = {
                 "states": r.distinct, "transitions": r.generated, "wall_s": round(r.wall, 1)}
+        elif expect == "":
+            kit.require_clean(r, f"{cfg}: in-place update invisible to the output clauses without aliasing")
+            controls[cfg] = "passes as required (blind spot of output-only observation)"
         else:
             if expect not in r.invariant_violated:
                 raise kit.MachineryError(
@@ -344,7 +420,7 @@ def _classify(recs, verdicts, out):
             failing_first[key] = v
     for rid, v in sorted(failing_first.items()):
         rec = byid[rid]
-        case = {k: rec[k] for k in ("k", "init", "s", "S") if k in rec}
+        case = {k: rec[k] for k in ("k", "init", "s", "S", "alias") if k in rec}
         if rec["k"] == "hist":
             case["ops"] = [{"op": e["op"], "side": e["side"], "X": e["X"], "flt": e["flt"]}
                            for e in rec["ev"]]
@@ -372,7 +448,7 @@ def _drift(recs, failing_first):
     return n, examples
 
 
-GROUPS = ("FHR", "D", "G", "L")
+GROUPS = ("FHR", "D", "G", "L", "P")
 ID_STRIDE = 10_000_000
 
 
@@ -424,7 +500,7 @@ def _pipeline(group, gi, tier, seed, wd):
 def run(tier, seed, out):
     wd = kit.fresh_workdir(PROP)
     recs, verdicts = [], []
-    with cf.ThreadPoolExecutor(max_workers=6) as ex:
+    with cf.ThreadPoolExecutor(max_workers=8) as ex:
         fmodels = ex.submit(run_models, tier)
         ftlaps = ex.submit(run_tlaps, wd)
         futs = [ex.submit(_pipeline, g, gi, tier, seed, wd) for gi, g in enumerate(GROUPS)]
@@ -456,11 +532,18 @@ def run(tier, seed, out):
         nontrivial = ((r["k"] == "hist" and any(len(e["X"]) > 0 or e["side"] == "S" for e in r["ev"]))
                       or (r["k"] == "rw" and r["s"]["kind"] != "Nop")
                       or (r["k"] == "dot" and any(s["deps"] for s in r["S"])))
-        case = {k: r[k] for k in ("k", "init", "s", "S") if k in r}
+        case = {k: r[k] for k in ("k", "init", "s", "S", "alias") if k in r}
         if r["k"] == "hist":
             case["ops"] = [[e["op"], e["side"], e["X"], e["flt"]] for e in r["ev"]]
         out.note_case(case, nontrivial=nontrivial)
     out.extra["cases_by_kind"] = kinds
+    evs = [e for r in recs if r["k"] == "hist" for e in r["ev"]]
+    out.extra["events"] = {
+        "total": len(evs),
+        "operands_share_statement_objects": sum(1 for e in evs if set(e["ids"]["a"]) & set(e["ids"]["b"])),
+        "same_list_as_both_operands": sum(1 for e in evs if e["side"] == "S"),
+        "result_holds_operand_objects": sum(1 for e in evs if set(e["ids"]["r"]) & (set(e["ids"]["a"]) | set(e["ids"]["b"]))),
+    }
     out.extra["failing_records"] = len(failing_first)
     pick = [next((r for r in recs if r["k"] == k), None) for k in ("hist", "rw", "dot")]
     out.samples = [{k: v for k, v in r.items() if k not in ("n",)} for r in pick if r]
@@ -469,7 +552,11 @@ def run(tier, seed, out):
                 "driven through disambiguate_identifiers and disambiguate_and_fuse, (H) histories of "
                 "repeated fusion / disambiguate-and-fuse over 4 base streams, (R) statements "
                 "lhs x rhs x cond, (G) every labelled DAG with <= 5 nodes, (L) chains of 6-8 nodes with "
-                "shortcut edges in 3 list orders; the thorough tier adds seeded -simulate histories of "
+                "shortcut edges in 3 list orders, (P) assignments with one identifier per position x "
+                "filters admitting any subset, in histories whose operands share statement objects; "
+                "H histories run twice: base streams built once (objects shared between uses) and "
+                "rebuilt per use; after every call the two operand lists are read again and judged "
+                "against what was handed in (frame); the thorough tier adds seeded -simulate histories of "
                 "length 5; non-trivial = a history with a "
                 "non-empty operand, a non-nop statement, a DAG with an edge; distinct by digest of the case")
     out.exhaustive = True   # the -simulate histories of the thorough tier come on top
